@@ -176,11 +176,11 @@ for _p in ("C05", "C06", "C12", "C13"):
 # in-memory mutants run by the thorough tier (vacuity guard for the contracts; reported in evidence, no verdict)
 MUTANTS = {
     "C05": [("C05/limit_fanout[structure]", "limit_fanout"), ("C05/limit_fanin[structure]", "limit_fanin")],
-    "C07": [("C07/connect", "Circuit.connect"), ("layer1/Circuit.connect", "Circuit.connect"), ("C07/fill_blackbox on the body", "Circuit.fill_blackbox"),
+    "C07": [("layer1/Circuit.connect", "Circuit.connect"), ("layer1/Circuit.add[default]", "Circuit.add"), ("C07/fill_blackbox on the body", "Circuit.fill_blackbox"),
             ("C07/add_blackbox[connections] on the body", "Circuit.add_blackbox"), ("C07/add_subcircuit[connections] on the body", "Circuit.add_subcircuit")],
     "C06": [("layer2/add_subcircuit[no connections]", "Circuit.add_subcircuit"), ("layer2/add_blackbox[no connections]", "Circuit.add_blackbox")],
     "C16": [("C16/remove_unloaded", "Circuit.remove_unloaded")],
-    "C04": [("C04/miter[pair,explicit]", "miter")],
+    "C04": [("C04/miter[pair,default]", "miter")],
     "C01": [("C01/cnf", "cnf")],
     "C12": [("layer1/Circuit.fanin", "Circuit.fanin"), ("layer1/Circuit.startpoints", "Circuit.startpoints")],
     "C13": [("C13/half_adder", "half_adder"), ("C13/full_adder", "full_adder")],
